@@ -26,7 +26,17 @@ def baseline(cwd):
         if e.get("Test") and e.get("Action") == "pass":
             passed.add(e["Package"] + "::" + e["Test"])
     base = set(json.load(open("/root/.vp/BASELINE.json"))["stable_pass"])
-    return sorted(base - passed)
+    missing = base - passed
+    if missing:
+        # a few of the repository's own tests are flaky on a loaded machine: what is missing is run once more, alone
+        pkgs = sorted({m.split("::")[0] for m in missing})
+        rc, out = sh("go test -mod=mod -json -vet=off -count=1 -timeout 25m %s 2>/dev/null" % " ".join(pkgs), cwd)
+        for l in out.splitlines():
+            try: e = json.loads(l)
+            except Exception: continue
+            if e.get("Test") and e.get("Action") == "pass":
+                missing.discard(e["Package"] + "::" + e["Test"])
+    return sorted(missing)
 
 def main():
     mdir, name, prop, wt, demo = sys.argv[1:6]
